@@ -755,6 +755,32 @@ def H2(F, rep, R, FL):
            'open(): currentUncompressedFileSize += fileStatistics.statisticsSize exactly once on each of the %d starting paths' % nb, nontrivial=True)
 
 
+def H3(F, rep):
+    """caller-supplied header fields are stored verbatim: the library itself assigns only the fields it owns (the three totals and
+    the restore-point offset); every other field of fileStatistics is written by nobody but the caller and FileStatistics::read"""
+    own = {'fileSize', 'uncompressedFileSize', 'objectCount', 'restorePointsOffset'}
+    rep.count('H3')
+    bad = []
+    for name, fns in F.functions.items():
+        for fn in fns:
+            if fn.get('class') != FILE:
+                continue
+            for n in walk(fn['body']):
+                t = None
+                if n.get('k') == 'Bin' and n.get('op') in ('=', '+=', '-=', '|=', '&='):
+                    t = _stat_target(n)
+                elif n.get('k') == 'Un' and n.get('op') in ('++', '--'):
+                    p_ = member_path(n['sub'])
+                    t = p_[-1] if p_ and len(p_) >= 2 and p_[-2] == 'fileStatistics' else None
+                elif n.get('k') == 'Call' and n.get('ck') == 'operator' and n.get('op') in ('=', '+=') and n.get('args'):
+                    t = _stat_target(n)
+                if t and t not in own:
+                    bad.append('%s assigns fileStatistics.%s (line %s)' % (short(fn['name']), t, n.get('l')))
+    rep.ob('H3', 'fileStatistics|owned-fields', not bad, None,
+           'File assigns only fileStatistics.{%s}; all other header fields keep what the caller supplied' % ', '.join(sorted(own)) if not bad else
+           'caller-supplied header fields are overwritten: ' + '; '.join(bad), nontrivial=True)
+
+
 def _stat_target(n):
     tgt = None
     if n.get('k') == 'Bin':
